@@ -13,7 +13,7 @@ GRID_MAX = 16
 
 LABELSETS = {
     "plain": ["a", "b", "c"],
-    "punct": ["a b", "a-b", "x(y)", "p,q", "a", "b"],
+    "punct": ["a b", "a-b", "x(y)", "p,q", "a", "b", "100%", "%s", "{0}", "a\\b"],
     "empty": ["", "a", "b", ""],
     "padded": [" a", "b ", " c ", "\ta", "a", "b\n", "  ", "\xa0a", "b\u2003", "\r c", "a\x0b"],
     "unicode": ["é", "日本", "ß", "a", "ö-b"],
